@@ -156,6 +156,7 @@ var inventory = []string{
 	"wkb.Unmarshal", "ewkb.Unmarshal", "ewkb.Scan", "wkt.Unmarshal", "geojson.Unmarshal", "igc.Read",
 	"xy.Misc", "xy.CentroidsWithExtras", "wkb.WriteRead", "hex.Decode", "geojson.FeatureCollection", "decode.CrossFormat", "decode.CrossFormat", "decode.Truncated", "decode.Truncated", "exact.Burst", "exact.Burst",
 	"geojson.MarshalSharedOpts", "geojson.MarshalSharedOpts", "wkt.MarshalSharedOpts", "wkb.UnmarshalSharedOpts", "geojson.MarshalSharedSlice", "geojson.MarshalSharedSlice",
+	"ls.Interpolate", "ls.Interpolate", "ls.Interpolate",
 }
 
 // Option values are plain values that callers naturally create once and pass to
@@ -204,7 +205,20 @@ func genCase(t *rapid.T) Case {
 		}
 		c.Pool = append(c.Pool, *g)
 	}
-	for i := 2; i < np; i++ {
+	// item 2: a track - an XYM line whose measure never decreases and stands still
+	// over runs of vertices (repeated timestamps), what Interpolate searches in
+	{
+		g := &model.G{Kind: model.LineString, Layout: int(geom.XYM)}
+		m := float64(rapid.IntRange(-5, 5).Draw(t, "tm0"))
+		for i, n := 0, rapid.IntRange(2, 14).Draw(t, "tn"); i < n; i++ {
+			if rapid.IntRange(0, 2).Draw(t, "tstep") != 0 {
+				m += float64(rapid.IntRange(1, 3).Draw(t, "tdm")) * 2.5
+			}
+			g.C1 = append(g.C1, model.Bits([]float64{float64(i), float64(i % 3), m}))
+		}
+		c.Pool = append(c.Pool, *g)
+	}
+	for i := 3; i < np; i++ {
 		c.Pool = append(c.Pool, *genPoolGeom(t))
 	}
 	nc := rapid.IntRange(30, 150).Draw(t, "ncalls")
@@ -453,6 +467,32 @@ func execInner(pool []*item, c Call, geomRes func(geom.T, error) string, bytesRe
 			}
 		}
 		return sb.String()
+	case "ls.Interpolate":
+		// a line's own search and slicing methods: answers are functions of the line and
+		// the arguments (a track is asked about many instants, in any order)
+		ls, ok := t.(*geom.LineString)
+		if !ok || ls.NumCoords() == 0 {
+			return ""
+		}
+		n := ls.NumCoords()
+		j, dim := c.B%n, (c.A+c.B)%stride
+		if ls.Layout() == geom.XYM && c.B%4 != 0 {
+			dim = 2
+		}
+		val := ls.Coord(j)[dim]
+		switch (c.A + c.B/n) % 4 {
+		case 1:
+			if j+1 < n {
+				val = (val + ls.Coord(j + 1)[dim]) / 2
+			}
+		case 2:
+			val = math.Nextafter(val, math.Inf(1))
+		case 3:
+			val -= 1e9
+		}
+		idx, frac := ls.Interpolate(val, dim)
+		lo, hi := j, j+(c.A+c.B)%(n-j+1)
+		return fmt.Sprint(idx, fl(frac), ls.Coord(j).X(), ls.Coord(j).Y(), ls.Coord(j).Equal(ls.Layout(), ls.Coord(lo)), ls.Coord(j).Clone()) + canonGeom(ls.SubLineString(lo, hi), nil)
 	case "BoundsOverlap":
 		if a.g.Layout == 5 || b.g.Layout == 5 {
 			return "n/a"
